@@ -36,9 +36,12 @@ INDENTS = [" ", "   ", "\t"]
 
 def variants(tier_full: bool, focus=None):
     """(label, dialect key, model tweaks, SQLFormatOptions kwargs)
-    focus="merge": only the four plain-SQLite variants {WITH on/off} x {extend merges on/off} (cheap: many more programs)"""
+    focus="merge": only the four plain-SQLite variants {WITH on/off} x {extend merges on/off} (cheap: many more programs)
+    focus="cte": only the six PostgreSQL-dialect variants {no WITH, WITH, WITH+CTE elimination} x {merges on/off}"""
     if focus == "merge":
         return [v for v in variants(False) if v[1] == "sqlite"]
+    if focus == "cte":
+        return [v for v in variants(False) if v[1] == "pg"]
     out = []
     if not tier_full:
         # quick tier (to_sql costs ~50-100 ms on deep DAGs): 16 variants covering every option at least in both
@@ -299,4 +302,8 @@ def run(ctx):
             "final_order": 0.1,
         }
     )
+    # CTE-elimination focus: always a diamond (shared node, consumers that are twins / ask for different column subsets)
+    ccfg = dict(cfg)
+    ccfg.update({"shape_prob": 1.0, "narrowing_tails": True})
+    ctx.campaign("cte_focus", gen.programs(ccfg), lambda case: oracle(case, "cte"), max_examples=ctx.n(120, 16000))
     ctx.campaign("merge_focus", gen.programs(mcfg), lambda case: oracle(case, "merge"), max_examples=ctx.n(250, 24000))
